@@ -29,7 +29,12 @@ Definition ASR : AsyncReader sreader := {| prd := asr_poll |}.
 Definition mk_rb (pre : list Z) (cap uninit : Z) : rb :=
   let store := repeat 221 (Z.to_nat (zlen pre + cap)) in
   let b := if uninit =? 0 then rb_new store else rb_uninit store in
-  {| rb_buf := splice (rb_buf b) 0 pre; rb_filled := zlen pre; rb_init := Z.max (rb_init b) (zlen pre) |}.
+  let b1 := {| rb_buf := splice (rb_buf b) 0 pre; rb_filled := zlen pre; rb_init := Z.max (rb_init b) (zlen pre) |} in
+  (* flag k >= 2: ReadBuf::uninit, then initialize_unfilled_to(min(k - 1, cap)): an initialised (zeroed) part strictly inside the tail *)
+  if 2 <=? uninit then
+    let j := Z.min (uninit - 1) cap in
+    {| rb_buf := splice (rb_buf b1) (zlen pre) (repeat 0 (Z.to_nat j)); rb_filled := zlen pre; rb_init := zlen pre + j |}
+  else b1.
 Definition take_rb (l : list Z) : rb * list Z :=
   let '(pre, t) := take_list l in (mk_rb pre (hd 0 t) (hd 0 (tl t)), tl (tl t)).
 Definition enc_rb (b : rb) : list Z := enc_bytes (rb_filled_bytes b) ++ [rb_remaining b].
